@@ -1,7 +1,7 @@
 import ScyllaVerif.Model.Retry
 /-
 The request execution fiber: `RequestExecutionParams::run_request_speculative_fiber`
-(`scylla/src/client/execution.rs:525-650`) as driven by `run_request_no_side_effects` (`:395-520`) when no
+(`scylla/src/client/execution.rs:519-644`) as driven by `run_request_no_side_effects` (`:403-514`) when no
 speculative policy applies (one fiber; `None` ⇒ `RequestError::EmptyPlan`).  Import-free.
 
   'targets_in_plan: for target in request_plan {
@@ -20,7 +20,7 @@ speculative policy applies (one fiber; `None` ⇒ `RequestError::EmptyPlan`).  I
 
 The plan is a list of targets; a target is a connection oracle `Nat → Bool` indexed by the `get_connection()`
 call on that target (`avail j` = the j-th call yields a connection): `get_connection` is called again in every
-iteration of the inner loop (`:546`), so a target can stop yielding connections between two same-target attempts.
+iteration of the inner loop (`:536`), so a target can stop yielding connections between two same-target attempts.
 The server / network is the oracle `outcomes : Nat → Outcome` (what the k-th attempt returns).  The unbounded
 `loop` is modelled with a fuel that every loop iteration consumes; `Props/C06.lean` proves that the fuel used by
 `run` is never exhausted (and that any larger fuel gives the same trace).
@@ -51,7 +51,7 @@ structure Attempt where
   cl : Consistency
   deriving DecidableEq, Repr, Inhabited
 
-/-- `last_error` (`execution.rs:537`): a pool error (`:554`) or the error of the last attempt (`:623`). -/
+/-- `last_error` (`execution.rs:529`): a pool error (`:544`) or the error of the last attempt (`:619`). -/
 inductive LastErr where
   | pool
   | attempt (e : Err)
@@ -117,28 +117,28 @@ def Trace.push (tr : Trace) (a : Attempt) (d : Decision) (created : Nat) : Trace
 the head.  Every iteration of either loop consumes one unit of fuel. -/
 def exec {σ : Type} (P : PolicyFn σ) (idem : Bool) (outcomes : Nat → Outcome) :
     Nat → List Target → Nat → Loc σ → Trace
-  | _, [], _, loc => ⟨[], [], .exhausted loc.lastErr, 0⟩            -- :649 `last_error.map(Result::Err)`
+  | _, [], _, loc => ⟨[], [], .exhausted loc.lastErr, 0⟩            -- :643 `last_error.map(Result::Err)`
   | 0, _ :: _, _, _ => ⟨[], [], .outOfFuel, 0⟩
   | fuel + 1, av :: rest, t, loc =>
-    if av 0 = false then                                             -- :546-557 choosing a connection failed
+    if av 0 = false then                                             -- :536-547 choosing a connection failed
       exec P idem outcomes fuel rest (t + 1) { loc with lastErr := some .pool }
     else
-    let a : Attempt := ⟨t, loc.cl⟩                                   -- :575-578 run_request_once
+    let a : Attempt := ⟨t, loc.cl⟩                                   -- :566-569 run_request_once
     match outcomes loc.k with
-    | .ok => ⟨[a], [], .completed t, 0⟩                              -- :581-594
+    | .ok => ⟨[a], [], .completed t, 0⟩                              -- :573-586
     | .fail e =>
       let created := if loc.sess.isSome then 0 else 1                -- :317-322 get_or_insert_with
-      let r := P.decide (loc.sess.getD P.init) ⟨e, idem, loc.cl⟩       -- :611-617
+      let r := P.decide (loc.sess.getD P.init) ⟨e, idem, loc.cl⟩       -- :605-611
       let loc' : Loc σ := ⟨loc.k + 1, r.2.newCl.getD loc.cl, some r.1, some (.attempt e)⟩
       match r.2 with
-      | .retrySame _ =>                                              -- :626-630
+      | .retrySame _ =>                                              -- :622-626
         (exec P idem outcomes fuel (av.next :: rest) t loc').push a r.2 created   -- get_connection again
-      | .retryNext _ =>                                              -- :631-635
+      | .retryNext _ =>                                              -- :627-631
         (exec P idem outcomes fuel rest (t + 1) loc').push a r.2 created
-      | .dontRetry => ⟨[a], [.dontRetry], .stopped e, created⟩       -- :636 then :649
-      | .ignoreWrite => ⟨[a], [.ignoreWrite], .ignored t, created⟩   -- :637-642
+      | .dontRetry => ⟨[a], [.dontRetry], .stopped e, created⟩       -- :632 then :643
+      | .ignoreWrite => ⟨[a], [.ignoreWrite], .ignored t, created⟩   -- :633-638
 
-/-- Initial loop variables (`:537-538`; `retry_session: None` at `:470/:497`). -/
+/-- Initial loop variables (`:529-530`; `retry_session: None` at `:446/:474`). -/
 def Loc.init {σ : Type} (cl0 : Consistency) : Loc σ := ⟨0, cl0, none, none⟩
 
 /-- One request without speculative execution, any retry policy: a single fiber over the whole plan, given
@@ -154,10 +154,10 @@ def run (pol : Policy) (idem : Bool) (cl0 : Consistency) (plan : List Target) (o
 
 /-! ### several fibers sharing one plan iterator (speculative execution)
 
-`run_request_no_side_effects` (`execution.rs:431-473`), for an idempotent request with a speculative execution
+`run_request_no_side_effects` (`execution.rs:420-461`), for an idempotent request with a speculative execution
 policy, wraps the plan in `SharedPlan { iter: Mutex<I> }` and lets `speculative_execution::execute` start up to
 `1 + max_retry_count` instances of `run_request_speculative_fiber`, each with `retry_session: None` (its OWN lazily
-created retry session, `:463`) and its own `current_consistency` / `last_error`, all pulling targets from the
+created retry session, `:446`) and its own `current_consistency` / `last_error`, all pulling targets from the
 one shared iterator (`for target in request_plan` calls `SharedPlan::next`, which locks the mutex: each target
 goes to exactly one fiber).  The fibers run interleaved at `.await` points; a fiber that is cancelled (another
 one won) or not yet launched simply takes no further step.  This section models that as a small-step system:
@@ -176,7 +176,7 @@ structure Fiber (σ : Type) where
   /-- the attempts it made, latest first -/
   log : List Attempt
 
-/-- A fiber that has just been created (`execution.rs:537-538`, `retry_session: None`). -/
+/-- A fiber that has just been created (`execution.rs:529-530`, `retry_session: None`). -/
 def Fiber.fresh {σ : Type} (cl0 : Consistency) : Fiber σ := ⟨none, Loc.init cl0, false, []⟩
 
 /-- The shared iterator: remaining targets and the plan index of the first of them. -/
@@ -194,7 +194,7 @@ def Fiber.step {σ : Type} (P : PolicyFn σ) (idem : Bool) (outcomes : Nat → O
     | [] => ({ f with done := true }, sp)                             -- `for` ends: `last_error.map(Err)`
     | av :: rest => ({ f with cur := some (sp.next, av) }, ⟨rest, sp.next + 1⟩)   -- `SharedPlan::next`
   | some (t, av) =>
-    if av 0 = false then                                              -- :546-557
+    if av 0 = false then                                              -- :536-547
       ({ f with cur := none, loc := { f.loc with lastErr := some .pool } }, sp)
     else
       let a : Attempt := ⟨t, f.loc.cl⟩
